@@ -10,7 +10,7 @@ import math
 
 import check as CK
 
-TRANSLATORS = ["enums", "defender"]
+TRANSLATORS = ["enums", "defender", "dispatch"]
 COQ_FILES = ["Props/C17.v", "Obl/C17_tables.v", "Obl/EnumsOk.v"]
 
 GAME_TYPES = ["ScanNetwork", "FindServices", "FindData", "ExploitService", "ExfiltrateData", "BlockIP"]
@@ -88,6 +88,13 @@ def rat(x):
 
 
 def correspondence(ctx):
+    # sessions on the real coordinator with the global defender on, several episodes per session: the history handed to the
+    # defender must be exactly the actions answered in the current episode (monitor tagged C17 in coordcommon)
+    from props import coordcommon as CC
+    CC.run_sessions(ctx, "C17", 60 if ctx.tier == "thorough" else 24,
+                    lambda r: dict(n_events=r.choice([50, 80]), burst=0.1, fault=0.02, bad=0.02, resets=0.3),
+                    lambda r: dict(defender=True, required=r.choice([1, 1, 2]), max_steps=r.choice([3, 6, None])))
+    sess_cov = {k: ctx.coverage.get(k) for k in ("sessions", "labels_followed", "response_and_barrier_statistics")}
     impl = _impl()
     gd = impl[0]
     defender = gd.GlobalDefender()
@@ -206,6 +213,8 @@ def correspondence(ctx):
                 if e != g:
                     disagreements += 1
                     ctx.broken.append(f"correspondence Model/Defender.v vs global_defender.py: block {os.path.basename(p)} case {lo + k}: implementation {e}, model {g}")
+    ctx.coverage = {k: v for k, v in ctx.coverage.items() if k in ('coqchk',)}
+    ctx.coverage['coordinator_sessions'] = sess_cov
     ctx.coverage.update({
         "evaluations": evaluations,
         "distinct_nontrivial": nontrivial,
